@@ -19,6 +19,10 @@ class DiscUnit(Unit):
                 if a.startswith('derive('):
                     bounds += ' + ' + ' + '.join('core::hash::Hash' if x.strip() == 'Hash' else x.strip() for x in a[7:-1].split(','))
             p.extra_rust = 'const _: fn() = || { fn vx_has<X: %s>() {} vx_has::<%s>(); };' % (bounds.replace('PartialOrd', 'PartialOrd'), D)
+            if 'restricted_vis' not in p.tags:
+                # IntoDiscriminant is implemented (whatever the visibility of the enum itself) unless vis(..) restricts the generated type
+                inst = vspec.rust_inst(p)
+                p.extra_rust += '\nconst _: fn() = || { let _: fn(&%s%s) -> %s = <%s%s as strum::IntoDiscriminant>::discriminant; };' % (p.name, inst, D, p.name, inst)
         return progs
     def gen(self, ctx, prog):
         pre, plan, consts, lem = spec_misc.gen_disc(prog)
@@ -72,7 +76,10 @@ class IsUnit(Unit):
     def kani_module(self, ctx, prog):
         return spec_misc.kani_is(prog)[0]
     def kani_harnesses(self, ctx, prog):
-        return spec_misc.kani_is(prog)[1]
+        hs = spec_misc.kani_is(prog)[1]
+        if ctx.tier != 'thorough':
+            hs = [h for h in hs if h[0].startswith('mut_')]
+        return hs
     def extra_checks(self, ctx, progs, items):
         for p in progs:
             o = core.Obligation('%s/rustc:methods-exist-under-the-oracle-names' % p.name, p.name, 'names', 'rustc', ['C13'])
